@@ -41,6 +41,22 @@ Theorem C19_has_exact : forall (ver : Type) (is_empty : ver -> bool) (cmp : ver 
     (forall id, ~ In id (map fst caps) -> has m id = false).
 Proof. exact has_exact. Qed.
 
+(* (a') Target.SetCapabilities on a Version that already carries answers (calls m made before, e.g. by the caller
+   through DefaultVersion.SetCapability or by an earlier SetCapabilities): every registered capability that has
+   ranges gets exactly the membership answer, every other capability OBJECT keeps the answer it had. *)
+Theorem C19_set_on_existing : forall (ver : Type) (is_empty : ver -> bool) (cmp : ver -> ver -> option Z) v caps m,
+  functional ver caps -> caps_ok ver is_empty cmp v caps = true ->
+  exists m', set_capabilities ver is_empty cmp v caps m = Ok m' /\
+    (forall id r rs, In (id, r :: rs) caps -> has m' id = existsb (in_range ver is_empty cmp v) (r :: rs)) /\
+    (forall id, (forall rs, In (id, rs) caps -> rs = []) -> has m' id = has m id).
+Proof. exact set_on_existing. Qed.
+
+(* DefaultVersion.SetCapability / Has: an answer belongs to the capability object (pointer) it was set for;
+   Has reports the latest answer set for that object and nothing set for another object. *)
+Theorem C19_has_per_object : forall (m : log) id b id',
+  has ((id, b) :: m) id' = if id =? id' then b else has m id'.
+Proof. exact has_latest. Qed.
+
 (* Target.Version succeeds exactly when all evaluated ranges are ok. *)
 Theorem C19_ok_iff : forall (ver : Type) (is_empty : ver -> bool) (cmp : ver -> ver -> option Z) v caps,
   (exists m, version_of ver is_empty cmp v caps = Ok m) <-> caps_ok ver is_empty cmp v caps = true.
@@ -131,6 +147,8 @@ Proof. split; [vm_compute; reflexivity|]. vm_compute. discriminate. Qed.
 Print Assumptions C19_pairing.
 Print Assumptions C19_contains.
 Print Assumptions C19_has_exact.
+Print Assumptions C19_set_on_existing.
+Print Assumptions C19_has_per_object.
 Print Assumptions C19_ok_iff.
 Print Assumptions C19_no_ranges.
 Print Assumptions C19_order_independent.
